@@ -4850,7 +4850,7 @@ def add_segments(part, force_new=False):
                 segment_info[ss]["to"].append(segment_info[se]["ID"])
 
             # first segments is always a leap destination (da capo)
-            if ss == 0:
+            if ss == part.first_point.t:
                 segment_info[ss]["type"] = "leap_end"
 
     # clean up and ORDER all the jump destination information
